@@ -56,12 +56,14 @@ var c20Ops = []opSpec{{"stat", fxpStat}, {"open", fxpOpen}, {"readlink", fxpRead
 	// multi-chunk transfers in which EVERY chunk request gets the scripted reply, the replies to the chunks outstanding together
 	// being written in the opposite order of the requests (a server may answer in any order): concurrent WriteAt,
 	// ReadFromWithConcurrency, concurrent ReadAt, WriteTo
+	// WriteTo sizes its work from the STAT reply: that reply mutated, and with sizes at the edges of 64 and 63 bits
+	{"writetostat", fxpStat},
 	{"writeconc-every", fxpWrite}, {"readfromconc-every", fxpWrite}, {"readconc-every", fxpRead}, {"writeto-every", fxpRead}}
 
 // c20Compound: operations that are not compared with the model (only crash / hang / follow-up / Close / allocation are judged)
 func c20Compound(op string) bool {
 	switch op {
-	case "writeconc-every", "readfromconc-every", "readconc-every", "writeto-every":
+	case "writeconc-every", "readfromconc-every", "readconc-every", "writeto-every", "writetostat":
 		return true
 	case "readconc", "writeto", "remove", "removefirst", "mkdirall", "mkdirallmk", "removeall", "realpath", "mkdir", "symlink", "chmod",
 		"truncatefile", "posixrename", "lstat", "fstat", "create", "glob":
@@ -201,7 +203,7 @@ func runC20Case(op string, reply []byte) string {
 		}
 	}()
 	opts := []sftp.ClientOption{}
-	if op == "readconc" || op == "writeto" || strings.HasSuffix(op, "-every") {
+	if op == "readconc" || op == "writeto" || op == "writetostat" || strings.HasSuffix(op, "-every") {
 		opts = append(opts, sftp.MaxPacketUnchecked(8), sftp.MaxConcurrentRequestsPerFile(3), sftp.UseConcurrentWrites(true))
 	}
 	cl, err := sftp.NewClientPipe(c1, c1, opts...)
@@ -317,7 +319,7 @@ func runC20Case(op string, reply []byte) string {
 			b := make([]byte, 24)
 			n, err := f.ReadAt(b, 0)
 			res = fmt.Sprintf("n=%x;err=%s", n, cliErrKind(err))
-		case "writeto", "writeto-every":
+		case "writeto", "writeto-every", "writetostat":
 			f, err := cl.Open("/x")
 			if err != nil {
 				res = "err:open"
@@ -439,7 +441,7 @@ func runC20(c *Ctx) {
 		}(),
 	}
 	own := map[string]string{"stat": "attrs", "open": "handle", "readlink": "name1", "readdir": "names", "rename": "statusok", "read8": "data",
-		"statvfs": "statvfs", "readconc": "data", "writeto": "data", "writeconc-every": "statusok", "readfromconc-every": "statusok", "readconc-every": "data", "writeto-every": "data",
+		"statvfs": "statvfs", "readconc": "data", "writeto": "data", "writeconc-every": "statusok", "readfromconc-every": "statusok", "readconc-every": "data", "writeto-every": "data", "writetostat": "attrs",
 		"remove": "status", "removefirst": "status", "mkdirall": "attrs", "mkdirallmk": "statusok", "removeall": "attrs", "realpath": "name1", "mkdir": "statusok",
 		"symlink": "statusok", "chmod": "statusok", "truncatefile": "statusok", "posixrename": "statusok", "lstat": "attrs", "fstat": "attrs", "create": "handle", "glob": "handle"}
 	child, err := startChild("c20", 6000000)
@@ -516,6 +518,11 @@ func runC20(c *Ctx) {
 		}
 		for k, v := range valid {
 			ask(o.name, v, k == own[o.name])
+		}
+		if o.name == "writetostat" {
+			for _, size := range []uint64{0, 1, 7, 8, 9, 1 << 32, 1<<63 - 1, 1 << 63, 1<<64 - 9, 1<<64 - 8, 1<<64 - 7, 1<<64 - 2, 1<<64 - 1} {
+				ask(o.name, pkt(fxpAttrs, 0).u32(0xf).u64(size).u32(1).u32(2).u32(0o100644).u32(3).u32(4).b, false)
+			}
 		}
 		nr := 20
 		if c.Thorough() {
